@@ -80,6 +80,7 @@ NestedSendEv(i, c, ev) ==
        IN Upd(i, [m1 EXCEPT !.stack[k] = [f EXCEPT !.open = {IF o.c = c THEN [o EXCEPT !.sent = TRUE] ELSE o : o \in f.open}]])
 NestedRet(i, c)     == Born(i) /\ EnNestedRet(D(i), M(i), c) /\ Upd(i, DoNestedRet(D(i), M(i), c))
 EndCb(i, c, raised) == Born(i) /\ EnEndCb(D(i), M(i), c) /\ Upd(i, DoEndCb(D(i), M(i), c, raised))
+CbWrite(i, c, v)    == Born(i) /\ EnCbWrite(D(i), M(i), c) /\ Upd(i, DoCbWrite(D(i), M(i), c, v))
 GuardFail(i)        == Born(i) /\ EnGuardFail(D(i), M(i)) /\ Upd(i, DoGuardFail(D(i), M(i)))
 Advance(i)          == Born(i) /\ EnAdvance(D(i), M(i))  /\ Upd(i, DoAdvance(D(i), M(i)))
 Assign(i)           == Born(i) /\ EnAssign(D(i), M(i))   /\ Upd(i, DoAssign(D(i), M(i)))
